@@ -50,7 +50,10 @@ class FakeWriter:
 
     def write(self, d):
         if self.closed:
-            raise ConnectionResetError("writer closed")
+            # like asyncio's transports: data written after the connection was closed is dropped without an
+            # exception (a raise here made a session that left during another session's push break that
+            # other session's command - a harness artefact, see DESIGN section 9)
+            return
         self.writes.append((len(self.buf), self.loop.time()))
         self.buf += d
         if self.on_write:
